@@ -176,7 +176,7 @@ def cubes_generic(tier, seed):
                     'dict']
         for top in tops:
             profiles = [None]
-            if tier == 'quick' and top == 'list':
+            if top == 'list':
                 # lists fan out: full scalar menu with one element, narrow
                 # scalar menu with two (any-match needs the second one)
                 profiles = ['w1', 'w2-narrow']
@@ -193,7 +193,8 @@ def cubes_generic(tier, seed):
     return out
 
 
-HARNESSES = {'generic': {'fn': run_generic, 'cubes': cubes_generic}}
+HARNESSES = {'generic': {'fn': run_generic, 'cubes': cubes_generic,
+                         'concretize_limit': 3000000}}
 REQUIRED_COVER = ['literal', 'path', 'allowed', 'denied',
                   'missing-target-key', 'dont-care']
 
